@@ -28,7 +28,7 @@ REQUIRED = ["route.list", "route.one-by-one", "route.scenario", "route.xml", "ro
             "point.edge-mid", "shape-coherence.Circle", "shape-coherence.Rectangle", "shape-coherence.Polygon",
             "shape-coherence.ShapeGroup", "get_obstacles", "map_obstacles_to_lanelets", "contains_points",
             "kind.adjacent", "kind.crossing", "kind.nested", "provenance.placed-angle-0", "provenance.placed",
-            "provenance.translate_rotate", "provenance.deepcopy", "route.deferred-index", "route.deferred-remove",
+            "provenance.translate_rotate", "provenance.deepcopy", "provenance.after-setters", "route.deferred-index", "route.deferred-remove",
             "route.translate-before-index"]
 ASSUMPTIONS = ["lanelet polygons are simple (strips with strictly increasing abscissa)",
                "circle queries within 0.2% of the radius of a boundary are not judged (shapely discs are 64-gons)"]
@@ -279,7 +279,7 @@ def run(ctx):
         # provenance: shapes reach users as constructed objects, as occupancies (rotate_translate_local, also with angle
         # exactly 0.0), as transformed or copied objects; the same coherence is demanded of every one of them
         prov = ["constructed", "placed-angle-0", "placed", "translate_rotate-angle-0", "translate_rotate",
-                "deepcopy"][(i // 4) % 6]
+                "deepcopy", "after-setters"][(i // 4) % 7]
         try:
             tr = np.array([rng.uniform(-40, 40), rng.uniform(-40, 40)])
             if prov.startswith("placed"):
@@ -289,6 +289,26 @@ def run(ctx):
             elif prov == "deepcopy":
                 import copy
                 shp = copy.deepcopy(shp)
+            elif prov == "after-setters":
+                # the object has exported its geometry once (whatever it computes lazily exists now) and is then
+                # re-parameterised through its public setters
+                def reparam(x):
+                    n_ = type(x).__name__
+                    if n_ != "ShapeGroup":
+                        _ = x.shapely_object, x.contains_point(np.array([0.0, 0.0])), getattr(x, "vertices", None)
+                    if n_ == "Rectangle":
+                        x.center = np.array([x.center[0] + tr[0], x.center[1] + tr[1]])
+                        x.length, x.width = x.length * 1.5 + 0.25, x.width * 0.5 + 0.125
+                        x.orientation = rng.uniform(-3, 3)
+                    elif n_ == "Circle":
+                        x.center = np.array([x.center[0] + tr[0], x.center[1] + tr[1]])
+                        x.radius = x.radius * 2.0 + 0.5
+                    elif n_ == "Polygon":
+                        x.vertices = np.array(x.vertices)[:-1] * 1.5 + tr
+                    else:
+                        for m_ in x.shapes:
+                            reparam(m_)
+                reparam(shp)
         except Exception as e:  # noqa
             ctx.violation("C06/%s/%s/raises-%s" % (kind, prov, type(e).__name__), repr(e)[:200], {"kind": kind})
             continue
